@@ -10,6 +10,7 @@ ENGINES = [
 
 HARNESSES = {
     'C11': [dict(name='c11_heap', src=['C11_heap.cpp'], flavour='hdr')],
+    'C12': [dict(name='c12_pdf', src=['C12_pdf.cpp'], flavour='hdr')],
 }
 
 NOT_APPLICABLE = {}
